@@ -60,7 +60,16 @@ namespace
             if (!s)
             {
                 s.reset(new net::Server());
-                s->start(std::make_shared<Handler>(), 2, [limit](Http::Endpoint::Options& o) { o.maxRequestSize(limit); });
+                // two of the four limits are set through the deprecated alias maxPayload
+                s->start(std::make_shared<Handler>(), 2, [limit](Http::Endpoint::Options& o) {
+#pragma GCC diagnostic push
+#pragma GCC diagnostic ignored "-Wdeprecated-declarations"
+                    if (limit == 512 || limit == 4096)
+                        o.maxPayload(limit);
+                    else
+                        o.maxRequestSize(limit);
+#pragma GCC diagnostic pop
+                });
             }
             return *s;
         }
